@@ -14,7 +14,8 @@ DOCS = {
     # empty edge cells (the row splitter's callers trim them)
     "D1": "[x]: /u 't'\n\npara *em* `c`\n\n> q\n> - li\n\n| a | b |\n|---|---|\n| 1 | 2 |\n|| 3 |\n|| 3 |\n| 4 ||\n\n```py\ncode\n```\n\n"
           "para *em* `c`\n\n|| h |\n|---|---|\n|| 3 |\n",
-    "D2": "use [x] and ![x] ~~s~~ \"q\" -- <b>h</b>\n\n1. one\n2. two\nlazy\n\n<div>\nraw\n</div>\n",
+    "D2": "use [x] and ![x] ~~s~~ \"q\" -- <b>h</b>\n\n1. one\n2. two\nlazy\n\n<div>\nraw\n</div>\n\n"
+          "[![b *c* `d`](/i \"t\")](/h) [e ![f ![g](/j)](/k) **h**](/l)\n",
     "D3": "# H [l](/a \"t\") ![i](/s)\n\nsetext\n===\n\n    code\n\n***\n\\* &amp; <http://x.y> line  \nbreak\n\n"
           "# H [l](/a \"t\") ![i](/s)\n\n\\* &amp; <http://x.y> &amp; [l](/a \"t\")\n",
 }
@@ -338,6 +339,10 @@ class World:
                 ev.setdefault("res", "raised"); ev.setdefault("fresh", "raised-fresh")
                 ev.setdefault("spy", [0, 0, 0, 0]); ev.setdefault("applied", {"main": [0, 0, 0, 0], "term": []})
         ev["out"] = out
+        # after a rule-management call the chains are also OBSERVED (getRules) on every second history position:
+        # applied must equal reported there too, and a later parse must not depend on whether anybody looked
+        if op in ("enable", "disable", "chain_toggle", "configure", "use", "enter_reset", "exit_reset") and self.inst.get(i) is not None:
+            ev["applied"] = self.applied(self.inst[i]) if idx % 2 else {"main": [], "term": []}
         ev["proj"] = [self.proj(j) for j in (1, 2, 3)]
         ev["presets_ok"] = 1 if self._presets_snapshot() == self.pristine else 0
         ev["envlabels"] = sorted(k.lower() for k in self.env.get("references", {}))
